@@ -584,6 +584,9 @@ def v_render(doc, target, rich=False):
     out = ["[Tabulation]", "target : %s" % target, "nr : 8", "cutoff : 3.5", "nrho : 4", "cutoff_rho : 3.0", ""]
     if rich:
         out += ["[Potential-Form]", "viaform(r, a, b) = a + b*r + tzero(r)", "", "[Table-Form:tzero]", "xy : 0 0 1 0 2 0 3 0 4 0 5 0", ""]
+    # element data of the user's own for one- and multi-letter species: the filter deletes pair, embedding and density entries,
+    # the [Species] section stays what it is (the filtered view and the hand-deleted file read the same data)
+    out += ["[Species]", "He.lattice_constant : 3.57", "He.lattice_type : hcp", "Fe.atomic_mass : 55.9", "H.lattice_constant : 1.1", "H.lattice_type : sc", ""]
     out += ["[Pair]"] + [v_entry(e, "pair", doc["fs"], rich) for e in doc["pair"]] + [""]
     out += ["[EAM-Embed]"] + [v_entry(e, "embed", doc["fs"], rich) for e in doc["embed"]] + [""]
     out += ["[EAM-Density]"] + [v_entry(e, "dens", doc["fs"], rich) for e in doc["dens"]] + [""]
